@@ -448,4 +448,174 @@ theorem blackbox_of_goodRet {maxDur : Nat} {cs offered : List Consult} {r : Ret}
       right
       exact ⟨_, hsub _ d, ⟨⟨⟨rfl, rfl⟩, a⟩, b⟩, c⟩
 
+
+/-! ### sequences of requests on one shared cache -/
+
+theorem rets_call (maxDur : Nat) (s : CState) (u : Name) (dir : Option Bool) :
+    ∃ o, (isAdminUserStep maxDur s u dir).rets =
+      ⟨s.now, u, isAdminUserRes maxDur s u dir, o⟩ :: s.rets := by
+  by_cases h : (Cache.get maxDur s.cache s.now u).2 = true
+  · exact ⟨s.cache.cachedOrigin u, by simp [isAdminUserStep, isAdminUserRes, h]⟩
+  · cases dir with
+    | some v => exact ⟨some s.now, by simp [isAdminUserStep, isAdminUserRes, h]⟩
+    | none => exact ⟨s.cache.cachedOrigin u, by simp [isAdminUserStep, isAdminUserRes, h]⟩
+
+theorem now_call (maxDur : Nat) (s : CState) (u : Name) (dir : Option Bool) :
+    (isAdminUserStep maxDur s u dir).now = s.now := by
+  unfold isAdminUserStep
+  split
+  · rfl
+  · cases dir <;> rfl
+
+structure HInv (maxDur : Nat) (cfg : Cfg) (s : HState) : Prop where
+  inv : Inv maxDur s.c
+  sub : SubOffered s.c
+  off : ∀ o, o ∈ s.c.offered → ∃ h, h ∈ s.handled ∧ h.t = o.t ∧ h.r.actor = o.user ∧
+    o.ans = adminVerdict cfg h.r.groups o.user
+  ret : ∀ h, h ∈ s.handled → h.adminV = true →
+    ∃ r, r ∈ s.c.rets ∧ r.t = h.t ∧ r.user = h.r.actor ∧ r.verdict = true
+  dec : ∀ h, h ∈ s.handled → h.dec = decide' cfg h.r h.adminV
+
+theorem hinv_init (maxDur : Nat) (cfg : Cfg) (t0 : Nat) : HInv maxDur cfg (HState.init t0) :=
+  ⟨inv_init maxDur t0, fun _ h => (by cases h), fun _ h => (by cases h), fun _ h => (by cases h),
+   fun _ h => (by cases h)⟩
+
+theorem hinv_step {maxDur : Nat} (hmax : 0 < maxDur) {cfg : Cfg} {s : HState}
+    (hs : HInv maxDur cfg s) (ev : HEv) : HInv maxDur cfg (hstep maxDur cfg s ev) := by
+  cases ev with
+  | advance d =>
+    exact ⟨(inv_step hmax hs.inv (.advance d) : Inv maxDur (cstep maxDur s.c (.advance d))),
+      (sub_step hs.sub (.advance d) : SubOffered (cstep maxDur s.c (.advance d))), hs.off, hs.ret, hs.dec⟩
+  | req r =>
+    show HInv maxDur cfg (hreq maxDur cfg s r)
+    unfold hreq
+    split
+    · -- the handler calls IsAdminUser(actor)
+      refine ⟨(inv_step hmax hs.inv (.call r.actor (adminVerdict cfg r.groups r.actor)) :
+          Inv maxDur (cstep maxDur s.c (.call r.actor (adminVerdict cfg r.groups r.actor)))),
+        (sub_step hs.sub (.call r.actor (adminVerdict cfg r.groups r.actor)) :
+          SubOffered (cstep maxDur s.c (.call r.actor (adminVerdict cfg r.groups r.actor)))), ?_, ?_, ?_⟩
+      · intro o ho
+        have ho' : o ∈ (⟨s.c.now, r.actor, adminVerdict cfg r.groups r.actor⟩ : Consult) :: s.c.offered := ho
+        simp only [List.mem_cons] at ho'
+        rcases ho' with ho' | ho'
+        · subst ho'
+          exact ⟨_, List.mem_cons_self, rfl, rfl, rfl⟩
+        · obtain ⟨h, hh, a, b, c⟩ := hs.off o ho'
+          exact ⟨h, List.mem_cons_of_mem _ hh, a, b, c⟩
+      · intro h hh hv
+        obtain ⟨o, ho⟩ := rets_call maxDur s.c r.actor (adminVerdict cfg r.groups r.actor)
+        have hr : (cstep maxDur s.c (.call r.actor (adminVerdict cfg r.groups r.actor))).rets =
+            ⟨s.c.now, r.actor, isAdminUserRes maxDur s.c r.actor (adminVerdict cfg r.groups r.actor), o⟩ ::
+              s.c.rets := ho
+        simp only [List.mem_cons] at hh
+        rcases hh with hh | hh
+        · subst hh
+          refine ⟨⟨s.c.now, r.actor, isAdminUserRes maxDur s.c r.actor (adminVerdict cfg r.groups r.actor), o⟩,
+            ?_, rfl, rfl, hv⟩
+          show _ ∈ (cstep maxDur s.c (.call r.actor (adminVerdict cfg r.groups r.actor))).rets
+          rw [hr]; exact List.mem_cons_self
+        · obtain ⟨x, hx, a, b, c⟩ := hs.ret h hh hv
+          refine ⟨x, ?_, a, b, c⟩
+          show x ∈ (cstep maxDur s.c (.call r.actor (adminVerdict cfg r.groups r.actor))).rets
+          rw [hr]; exact List.mem_cons_of_mem _ hx
+      · intro h hh
+        simp only [List.mem_cons] at hh
+        rcases hh with hh | hh
+        · subst hh; rfl
+        · exact hs.dec h hh
+    · refine ⟨hs.inv, hs.sub, ?_, ?_, ?_⟩
+      · intro o ho
+        obtain ⟨h, hh, a, b, c⟩ := hs.off o ho
+        exact ⟨h, List.mem_cons_of_mem _ hh, a, b, c⟩
+      · intro h hh hv
+        simp only [List.mem_cons] at hh
+        rcases hh with hh | hh
+        · subst hh; cases hv
+        · exact hs.ret h hh hv
+      · intro h hh
+        simp only [List.mem_cons] at hh
+        rcases hh with hh | hh
+        · subst hh; rfl
+        · exact hs.dec h hh
+
+theorem hinv_run {maxDur : Nat} (hmax : 0 < maxDur) {cfg : Cfg} (evs : List HEv) {s : HState}
+    (hs : HInv maxDur cfg s) : HInv maxDur cfg (hrun maxDur cfg s evs) := by
+  induction evs generalizing s with
+  | nil => exact hs
+  | cons ev rest ih => exact ih (hinv_step hmax hs ev)
+
+/-- a `true` handed out by `IsAdminUser` is backed by configuration + directory at a handled request -/
+theorem backed_of_ret {maxDur : Nat} {cfg : Cfg} {s : HState} (hs : HInv maxDur cfg s)
+    {r : Ret} (hr : r ∈ s.c.rets) (hv : r.verdict = true) :
+    backedB maxDur cfg s.handled r.t r.user = true := by
+  have hg := hs.inv.rets r hr
+  unfold GoodRet at hg
+  cases ho : r.origin with
+  | none => rw [ho] at hg; rw [hg.1] at hv; cases hv
+  | some t' =>
+    rw [ho] at hg
+    obtain ⟨h1, h2, h3⟩ := hg
+    rw [hv] at h2
+    obtain ⟨h', hh', a, b, c⟩ := hs.off _ (hs.sub _ h2)
+    have hadm : isAdmin cfg h'.r.groups r.user = true := by
+      unfold isAdmin
+      have : adminVerdict cfg h'.r.groups r.user = some true := c.symm
+      rw [this]; rfl
+    unfold backedB
+    simp only [List.any_eq_true]
+    refine ⟨h', hh', ?_⟩
+    have a' : h'.t = t' := a
+    have b' : h'.r.actor = r.user := b
+    rcases h3 with h3 | ⟨t'', p, q, w, m⟩
+    · simp [a', b', h1, hadm, h3]
+    · obtain ⟨h'', hh'', a2, b2, c2⟩ := hs.off _ (hs.sub _ m)
+      have a2' : h''.t = t'' := a2
+      have b2' : h''.r.actor = r.user := b2
+      have c2' : adminVerdict cfg h''.r.groups r.user = none := c2.symm
+      simp only [a', b', beq_self_eq_true, h1, decide_true, Bool.and_self, hadm, Bool.true_and,
+        Bool.or_eq_true, decide_eq_true_eq, List.any_eq_true, Bool.and_eq_true, beq_iff_eq]
+      right
+      exact ⟨h'', hh'', ⟨⟨⟨⟨b2', by omega⟩, by omega⟩, by omega⟩, c2'⟩⟩
+
+theorem effectAllowed_eq (cfg : Cfg) (groups : Groups) (op : Op) (actor : Name) (level : Nat)
+    (target : Name) (e : Effect) :
+    effectAllowed cfg groups op actor level target e =
+      effectAllowedB (isAdmin cfg groups actor) cfg groups op actor level target e := by
+  cases e <;> rfl
+
+theorem effectAllowedB_mono {a b : Bool} (hab : a = true → b = true) (cfg : Cfg) (groups : Groups)
+    (op : Op) (actor : Name) (level : Nat) (target : Name) (e : Effect)
+    (h : effectAllowedB a cfg groups op actor level target e = true) :
+    effectAllowedB b cfg groups op actor level target e = true := by
+  cases a with
+  | true => rw [hab rfl]; exact h
+  | false =>
+    cases b with
+    | false => exact h
+    | true =>
+      cases e with
+      | changed u =>
+        unfold effectAllowedB at h ⊢
+        by_cases hu : (u == actor) = true
+        · simp [hu]
+        · simp only [hu] at h ⊢
+          simp at h
+      | read u =>
+        unfold effectAllowedB at h ⊢
+        simp only [Bool.and_false, Bool.or_false] at h
+        simp [h]
+      | listed => unfold effectAllowedB at h; simp at h
+      | cert cn =>
+        unfold effectAllowedB at h ⊢
+        simp at h ⊢
+        exact ⟨h.1.1, h.2⟩
+
+theorem statusAllowedB_mono {a b : Bool} (hab : a = true → b = true) (op : Op)
+    (h : statusAllowedB a op = true) : statusAllowedB b op = true := by
+  unfold statusAllowedB at *
+  cases a with
+  | true => rw [hab rfl]; exact h
+  | false => cases hu : op.userAdmin <;> simp [hu] at h ⊢
+
 end KM.Admin
